@@ -1,9 +1,9 @@
 (* C08 — every written file is structurally valid TRIPOLI-4 input.
    Only restatements; proofs are in C08/Proofs*.v, definitions in C08/Model.v
    (what the code does) and C08/Spec.v (what a valid file is; wf_state). *)
-From Coq Require Import List NArith ZArith Bool String Ascii Permutation.
+From Coq Require Import List NArith ZArith Bool String Ascii Permutation Reals.
 From T4V Require Import Base.Str C08.Model C08.Spec C08.ProofsSets C08.ProofsWrite C08.ProofsPrune
-     C08.ProofsTail C08.Check C08.ProofsRefute.
+     C08.ProofsTail C08.SurfEq C08.Parse C08.ProofsChars C08.ProofsParse C08.Check C08.ProofsRefute.
 Import ListNotations.
 
 (* VolumeT4.__str__: for EVERY volume (no hypothesis), each declared count equals the
@@ -118,6 +118,29 @@ Theorem C08_bc_defined : forall (E : Type) (ren : option (list (Z * Z))) (w : ws
   end.
 Proof. intros E. exact bc_defined. Qed.
 Print Assumptions C08_bc_defined.
+
+(* the pipeline theorems for the concrete SurfaceT4.__eq__ (type, parameters, transform
+   compared with the scalar equality; C08/SurfEq.v) read at R: symmetry and transitivity are
+   proved there, so the hypothesis disappears *)
+Theorem C08_convert_tail_wf_R :
+  forall skip_dedup u0 u1 (w : wstate (spayload R)),
+  stage0_ok Req_payload u0 u1 w ->
+  exists o, convert_tail Req_payload skip_dedup u0 u1 w = Ok o /\
+    (o = Died false [] EValue \/
+     exists f, wf_file f /\ (o = Complete f \/ exists e, o = Raised f e /\ f_bc f = None)).
+Proof. exact convert_tail_wf_R. Qed.
+Print Assumptions C08_convert_tail_wf_R.
+
+(* TEXT LEVEL, all blocks, character level: the reader parse_t4 (C08/Parse.v: count-driven,
+   splits the text at newlines and blanks, reads decimal numerals, splits the comment off at
+   " // ") applied to the text print_t4 emits gives back the abstract file, for every file
+   whose word fields are words (no blank, no newline; no '/' in SURF types and parameters;
+   type <> "TRANSFORM"), whose comments have no newline and whose declared counts equal the
+   lengths (printable).  print_t4 is the printer the byte tie executes; parse_t4 is run on
+   the bytes of every real file by tie:reader *)
+Theorem C08_print_parse_roundtrip : forall f, printable f -> parse_t4 (print_t4 f) = Some f.
+Proof. exact parse_print_roundtrip. Qed.
+Print Assumptions C08_print_parse_roundtrip.
 
 (* ---- open defects: a composition that is named but not written.  The hypothesis cell_named
    (s0_cells / ws_cells) of the theorems above cannot be dropped: with closed tables, a cell
